@@ -47,7 +47,10 @@ class StubEzsp:
         self._maybe_fail(1)
         if self.plan == "u":
             return (t.EzspStatus.ERROR_INVALID_ID, b"")
-        return (t.EzspStatus.SUCCESS, b"\x10")
+        # the value is a length-prefixed byte string: the NCP may answer with none, one or several bytes (the feed counts as
+        # successful whatever its width)
+        self.nval = getattr(self, "nval", 0) + 1
+        return (t.EzspStatus.SUCCESS, [b"\x10", b"", b"\x10\x00", b"\x07\x00\x00\x00", b"\xff"][self.nval % 5])
 
 
 def deliver_callback(app, version, kind):
